@@ -273,7 +273,122 @@ func vRunRouter[T comparable, C any](ops vRtOps[T, C], out *vOut, pcaps []bool, 
 	}
 }
 
+// vRunRoutes: ONE router; Consumer(sel...) is called for every selection in turn and every result is KEPT (what a
+// routing connector does at start-up, one call per route); then one payload is sent through each kept result, the
+// first one last.  Case term: (CRoutes sig pcaps sels [(cap, calls)...]).  Direct oracle: every kept route consumer
+// still delivers to exactly its own selection, once per occurrence, whatever was asked of the router afterwards.
+func vRunRoutes[T comparable, C any](ops vRtOps[T, C], out *vOut, pcaps []bool, sels [][]int) {
+	cur := -1
+	calls := make([][]int, len(sels))
+	cm := map[pipeline.ID]C{}
+	ids := make([]pipeline.ID, len(pcaps))
+	for i, mut := range pcaps {
+		i := i
+		ids[i] = pipeline.NewIDWithName(ops.signal, fmt.Sprintf("p%d", i))
+		cm[ids[i]] = ops.mkCons(mut, func(T) error {
+			if cur >= 0 {
+				calls[cur] = append(calls[cur], i)
+			}
+			return nil
+		})
+	}
+	_, selF := ops.router(cm)
+	routes := make([]C, len(sels))
+	caps := make([]bool, len(sels))
+	for k, sel := range sels {
+		sid := make([]pipeline.ID, len(sel))
+		for j, x := range sel {
+			sid[j] = ids[x]
+		}
+		c, err := selF(sid...)
+		if err != nil {
+			panic(fmt.Sprintf("C06 router harness: Consumer(%v) failed: %v", sel, err))
+		}
+		routes[k] = c
+	}
+	// capabilities are read and payloads are sent only after ALL Consumer calls were made
+	var fails []string
+	for k := len(sels) - 1; k >= 0; k-- {
+		caps[k] = ops.caps(routes[k])
+		cur = k
+		if err := ops.consume(context.Background(), routes[k], ops.newP(k%3)); err != nil {
+			fails = append(fails, "consume-error|"+err.Error())
+		}
+	}
+	cur = -1
+	pc := make([]string, len(pcaps))
+	for i, b := range pcaps {
+		pc[i] = vBool(b)
+	}
+	st := make([]string, len(sels))
+	ot := make([]string, len(sels))
+	for k, sel := range sels {
+		a := make([]string, len(sel))
+		for j, x := range sel {
+			a[j] = vNat(x)
+		}
+		st[k] = vList(a)
+		b := make([]string, len(calls[k]))
+		for j, x := range calls[k] {
+			b[j] = vNat(x)
+		}
+		ot[k] = fmt.Sprintf("(%s,%s)", vBool(caps[k]), vList(b))
+		want, got := map[int]int{}, map[int]int{}
+		for _, x := range sel {
+			want[x]++
+		}
+		for _, x := range calls[k] {
+			got[x]++
+		}
+		for i := range pcaps {
+			if want[i] != got[i] {
+				fails = append(fails, fmt.Sprintf("kept-route-consumer-changed-by-later-Consumer-call|route %d = Consumer(%v) kept across %d later Consumer call(s): pipeline %d selected %d times, invoked %d times", k, sel, len(sels)-1-k, i, want[i], got[i]))
+			}
+		}
+		allMut := len(sel) > 0
+		for _, x := range sel {
+			allMut = allMut && pcaps[x]
+		}
+		if caps[k] != allMut {
+			fails = append(fails, fmt.Sprintf("capability-not-exact|route %d = Consumer(%v) advertises MutatesData=%v, pipeline capabilities %v", k, sel, caps[k], pcaps))
+		}
+	}
+	term := fmt.Sprintf("(CRoutes %d %s %s %s)", ops.id, vList(pc), vList(st), vList(ot))
+	seen := map[string]bool{}
+	for _, f := range fails {
+		k := f[:bytes.IndexByte([]byte(f), '|')]
+		if seen[k] {
+			continue
+		}
+		seen[k] = true
+		out.Oracle(k, term, "router/"+ops.name+": "+f[len(k)+1:])
+	}
+	out.Case(len(sels) >= 2, term)
+	out.Stat(fmt.Sprintf("routes_kept_%d", len(sels)), 1)
+}
+
+func vRoutesAll[T comparable, C any](ops vRtOps[T, C], out *vOut) {
+	rng := vNewRand(uint64(730 + ops.id))
+	for c, m := 0, vBudget(60, 15); c < m; c++ {
+		k := 2 + rng.Intn(4)
+		pcaps := make([]bool, k)
+		pm := []int{0, 0, 30, 70}[rng.Intn(4)] // all-non-mutating routers are the common real case
+		for i := range pcaps {
+			pcaps[i] = rng.Intn(100) < pm
+		}
+		sels := make([][]int, 2+rng.Intn(3))
+		for r := range sels {
+			sels[r] = make([]int, 1+rng.Intn(3))
+			for j := range sels[r] {
+				sels[r][j] = rng.Intn(k)
+			}
+		}
+		vRunRoutes(ops, out, pcaps, sels)
+	}
+}
+
 func vRouterAll[T comparable, C any](ops vRtOps[T, C], out *vOut) {
+	vRoutesAll(ops, out)
 	rng := vNewRand(uint64(670 + ops.id))
 	// exhaustive: 1..3 pipelines, every capability vector, every selection of length 1..3
 	for k := 1; k <= 3; k++ {
